@@ -29,8 +29,10 @@ example : ∃ T L, TableConsistent T L ∧ T.ops.length = 29 := ⟨Gen.table, Ge
 
 /-- The same for the tables of the current sources: for every well-formed skeleton over
 `op_data_raw` (operators in all argument positions, prefix operators, application, binders, if)
-print-then-parse is the identity.  (Identifiers are opaque `id` tokens here; `NameOK` is what
-the lexer needs, see `lex_drops_whitespace_partial`.) -/
+print-then-parse is the identity.  This is a statement about TOKEN lists: identifiers are opaque
+`id` tokens, and no theorem relates the printed text to tokens (spacing, the `". "` terminal,
+unary vs binary `-`, keyword clashes, `NameOK`); that step is checked at run time only, by running
+the model lexer on the real printed texts (correspondence stream). -/
 theorem parse_print (uni : Bool) (t : Skel) (hw : t.WF Gen.table Gen.ladder) :
     parseSkel Gen.table Gen.ladder (printSkel Gen.table Gen.ladder uni t) = some t :=
   parse_print_core gen_consistent uni t hw
@@ -48,15 +50,12 @@ example : (printSkel Gen.table Gen.ladder false exampleSkel).length = 18 ∧
     parseSkel Gen.table Gen.ladder (printSkel Gen.table Gen.ladder false exampleSkel) = some exampleSkel := by
   decide +kernel
 
-/-- Whitespace never reaches the parser: the lexer drops a blank, newline or tab wherever a token
-may start.  PARTIAL: that `print_ast` breaks lines only between tokens (and never inside the
-`". "` terminal) is not modelled; it is checked on every run by lexing the texts printed with
-line widths 20 and 80 and comparing with the unbroken text. -/
-theorem lex_drops_whitespace_partial (terms : List String) (f : Nat) (c : Char) (cs : List Char) (acc : List Tok)
-    (hc : c = ' ' ∨ c = '\n' ∨ c = '\t') : lexAux terms (f + 1) (c :: cs) acc = lexAux terms f cs acc := by
-  rcases hc with rfl | rfl | rfl <;> simp [lexAux]
-
-example : lex Gen.symbols "A  &\n   B" = lex Gen.symbols "A & B" := by decide +kernel
+/-- the binder spellings of operator.py (`binder_data_raw`) and of pprint.py (lambda) are the ones
+the printer model uses, and `table_consistent` ties each to a binder alternative of the grammar -/
+example : binderSpell Gen.table Gen.ladder false 1 = (Gen.table.binders.getD 0 default).ascii ∧
+    binderSpell Gen.table Gen.ladder true 0 = Gen.table.lam.unicode ∧
+    printSkel Gen.table Gen.ladder true (.binder 0 "x" (.atom "x")) = [.sym Gen.table.lam.unicode, .id "x", .dot, .id "x"] := by
+  decide +kernel
 
 /-! ### memo table (`pprint.term_ast`) over an abstract term equality -/
 
